@@ -29,8 +29,9 @@ class OptimizerRunCase(Case):
     family = "exit-code/optimizer-step"
 
     def __init__(self, cid, *, R=2, P=1, script, filt=None, estimator="mean", rmin=1, pmin=1, maxf=None, raise_at=None,
-                 allow_nan=False, C=0, transforms=None, redirect=False, exc_class=None, nan_col=0):
+                 allow_nan=False, C=0, transforms=None, redirect=False, exc_class=None, nan_col=0, merge=False):
         """script: list of (functions?, gradients?, point index)"""
+        self.merge = merge
         self.id = cid
         self.nan_col = nan_col
         self.R, self.P, self.script, self.filt, self.estimator = R, P, script, filt, estimator
@@ -59,7 +60,7 @@ class OptimizerRunCase(Case):
                                                   obj_scales=np.array([4.0]), con_scales=np.array([2.0] * C))
         self.cfg0 = ens.ensemble_config(
             N=2, R=R, P=P, C=C, rmin=rmin, pmin=pmin, estimators=(estimator,), filters=filters, obj_filt=obj_filt,
-            con_filt=con_filt, x0=[0.25, -0.5], lower=-10.0, upper=10.0, context=self.transforms,
+            con_filt=con_filt, x0=[0.25, -0.5], lower=-10.0, upper=10.0, context=self.transforms, merge=merge,
             extra={"optimizer": {"method": "symstub/x", "max_functions": 3 if maxf else None}})
         self.tname = transforms
         self.redirect, self.exc_class = redirect, exc_class or EvaluatorError
@@ -70,7 +71,7 @@ class OptimizerRunCase(Case):
 
     def describe(self):
         return (f"R={self.R} P={self.P} C={self.C} transforms={self.tname} script={self.script} filter={self.filt} estimator={self.estimator} rmin={self.rmin} "
-                f"pmin={self.pmin} nan_column={self.nan_col} max_functions={'symbolic' if self.maxf else None} evaluator_raises_at={self.raise_at} allow_nan={self.allow_nan}")
+                f"pmin={self.pmin} merge={self.merge} nan_column={self.nan_col} max_functions={'symbolic' if self.maxf else None} evaluator_raises_at={self.raise_at} allow_nan={self.allow_nan}")
 
     def inputs(self, env):
         flags = {}
@@ -311,6 +312,8 @@ def build_cases(tier):
     add(script=S2, rmin=2, C=2, nan_col=1, P=2, pmin=2)
     add(script=S1, rmin=0, C=2, R=3, allow_nan=True)
     add(script=S2, rmin=0, C=3, R=2, nan_col=3)
+    add(script=S2, rmin=0, merge=True, allow_nan=True)            # merged estimation with every realization failing
+    add(script=S2, rmin=1, merge=True, P=2, pmin=1)
     add(EvaluatorStepCase, rmin=2, C=2, nan_col=2)
     add(EvaluatorStepCase, rmin=0, C=2, R=3, nan_col=1)
     if tier == "thorough":
